@@ -151,7 +151,7 @@ func run(ctx context.Context, state *core.BuildState, label core.AnnotatedOutput
 			command = filepath.Join(dir, target.Outputs()[0])
 		} else {
 			command, _ = core.ReplaceSequences(state, target, fmt.Sprintf("$(out_exe %s)", target.Label))
-			command = strings.Trim(command, "\"")
+			command = core.Unquote(command)
 		}
 		args = append(strings.Split(command, " "), args...)
 	}
